@@ -7,8 +7,7 @@ A case is plain JSON:
    "kids": [[child tags] per tag], "root": tag, "other": {"kids": ..., "root": tag} | None,
    "gotos": [[self_tag, ["same", tag] | ["other", tag] | ["junk", kind]], ...]}
   {"kind": "binary", "slots": [[left tag | None, right tag | None] per tag], "root": tag, "build": [...],
-   "ext": "none" | "diameter" | "siblings"}     (ext: an inherited BaseNode query also asked of every node,
-                                                  see binary_ext_modes)
+   "ext": "none" | "diameter" | "siblings"}     (ext: an inherited BaseNode query also asked of every node)
 Tags are creation numbers of the Python objects (tag i = the i-th object created)."""
 import itertools
 
@@ -523,40 +522,11 @@ def make_binary_case(rng, n):
         slots[p][s] = t
         slots.append([None, None])
         free += [(t, 0), (t, 1)]
-    return {"kind": "binary", "slots": slots, "root": 0, "ext": rng.choice(binary_ext_modes()),
+    return {"kind": "binary", "slots": slots, "root": 0, "ext": rng.choice(BINARY_EXT[1:] + BINARY_EXT),
             "build": [rng.choice(["children", "leftright", "parent"]) for _ in range(rng.randint(1, 3))]}
 
 
-def binary_ext_modes():
-    """Which inherited BaseNode queries are also asked of BinaryNode trees (ext modes of binary cases).
-    On the unchanged bigtree both violate C12 (diameter raises AttributeError below a one-child node,
-    siblings returns (None,) next to an empty slot), so they are switched on
-      * by VERIF_C12_BINARY_EXT=1 | diameter | siblings   (0 switches everything off), or
-      * automatically once known_findings.json has an entry with property C12 whose text names
-        BinaryNode and diameter / siblings (status finding: reported as KNOWN-FINDING, ids K4-C12 / K5-C12;
-        status fixed: the repaired behaviour is then checked like everything else)."""
-    import json
-    import os
-    v = os.environ.get("VERIF_C12_BINARY_EXT")
-    if v is not None:
-        if v in ("0", "", "none"):
-            return ["none"]
-        if v in ("diameter", "siblings"):
-            return ["none", v]
-        return ["none", "diameter", "siblings"]
-    modes = ["none"]
-    try:
-        path = os.path.join(os.path.dirname(os.path.dirname(os.path.dirname(os.path.abspath(__file__)))), "known_findings.json")
-        entries = json.load(open(path)).get("entries", [])
-    except Exception:
-        entries = []
-    for e in entries:
-        text = str(e.get("text", ""))
-        if e.get("property") == "C12" and "BinaryNode" in text:
-            for m in ("diameter", "siblings"):
-                if m in text and m not in modes:
-                    modes.append(m)
-    return modes
+BINARY_EXT = ["none", "diameter", "siblings"]     # the inherited BaseNode query also asked of every node
 
 
 def corpus(prop):
@@ -576,14 +546,13 @@ def corpus(prop):
     out.append(("binary", {"kind": "binary", "slots": [[None, None]], "root": 0, "build": ["children"], "ext": "none"}))
     out.append(("binary", {"kind": "binary", "slots": [[1, None], [None, 2], [None, None]], "root": 0, "build": ["children"], "ext": "none"}))
     out.append(("binary", {"kind": "binary", "slots": [[None, 1], [2, 3], [None, None], [None, None]], "root": 0, "build": ["leftright"], "ext": "none"}))
-    modes = binary_ext_modes()
-    # witnesses of the two BinaryNode behaviours reported for C12 (see matches_finding)
-    if "diameter" in modes:
-        out.append(("binary-diameter-full", {"kind": "binary", "slots": [[1, 2], [None, None], [None, None]], "root": 0, "build": ["children"], "ext": "diameter"}))
-        out.append(("binary-diameter-witness", {"kind": "binary", "slots": [[1, None], [None, None]], "root": 0, "build": ["children"], "ext": "diameter"}))
-    if "siblings" in modes:
-        out.append(("binary-siblings-full", {"kind": "binary", "slots": [[1, 2], [None, None], [None, None]], "root": 0, "build": ["children"], "ext": "siblings"}))
-        out.append(("binary-siblings-witness", {"kind": "binary", "slots": [[1, None], [None, None]], "root": 0, "build": ["children"], "ext": "siblings"}))
+    # the tree on which BaseNode.diameter raised AttributeError before 8c12410 (a=BinaryNode(1); b=BinaryNode(2,parent=a);
+    # a.diameter), built through parent= as in the report, and relatives; full and one-sided trees for siblings
+    for ext in ("diameter", "siblings"):
+        out.append(("binary-" + ext + "-onechild", {"kind": "binary", "slots": [[1, None], [None, None]], "root": 0, "build": ["parent"], "ext": ext}))
+        out.append(("binary-" + ext + "-onechild", {"kind": "binary", "slots": [[None, 1], [None, None]], "root": 0, "build": ["children"], "ext": ext}))
+        out.append(("binary-" + ext + "-full", {"kind": "binary", "slots": [[1, 2], [None, None], [None, None]], "root": 0, "build": ["children"], "ext": ext}))
+        out.append(("binary-" + ext + "-zigzag", {"kind": "binary", "slots": [[None, 1], [2, None], [None, 3], [None, None]], "root": 0, "build": ["leftright"], "ext": ext}))
     return out
 
 
@@ -694,7 +663,7 @@ def rule(prop):
             "tree and for a non-node; shapes: all ordered trees up to 6 (quick) / 8 (thorough) nodes, then random "
             "wide/deep/mixed/path/star/broom/caterpillar/tallest-children-last shapes with <= 12 nodes built through "
             "children=/parent=/>>/append/extend on BaseNode, Node and a Node subclass, tags in pre-order/reverse/random "
-            "creation order; BinaryNode trees with empty slots for is_leaf (and, when enabled, the inherited diameter / siblings); "
+            "creation order; BinaryNode trees with empty slots for is_leaf and the inherited BaseNode.diameter / siblings (the other slot entries, None for an empty slot); "
             "non-trivial = >= 3 nodes (binary: >= 2); "
             "distinct by canonical JSON hash")
 
@@ -708,35 +677,9 @@ def explain(prop, case, obs, flags):
     return msg
 
 
-def matches_finding(prop, entry, case, obs, flags):
-    """K4-C12: BaseNode.diameter on a BinaryNode tree with a one-child node raises AttributeError
-    (None.is_leaf); K5-C12: BaseNode.siblings of a BinaryNode whose sibling slot is empty is (None,).
-    Matched only when the implementation did exactly what the faithful model does (flags == PROPFAIL)."""
-    if prop != "C12" or case.get("kind") != "binary" or flags != 2:
-        return False
-    if not isinstance(obs, dict) or "bin" not in obs:
-        return False
-    eid = str(entry.get("id", ""))
-    ext = case.get("ext", "none")
-    one_child = any((l is None) != (r is None) for l, r in case["slots"])
-    if eid.startswith("K4-C12"):
-        return ext == "diameter" and one_child and any(b[2][0] == 3 for b in obs["bin"])
-    if eid.startswith("K5-C12"):
-        return ext == "siblings" and one_child and any(None in b[2] for b in obs["bin"])
-    return False
-
-
 def trusted_base(prop):
     return COMMON_TB + ["positions (child-index routes) as the identity of node objects; tags decoded to positions by Corr/DerivedCorr.v"]
 
 
 def partial_clauses(prop):
-    out = []
-    modes = binary_ext_modes()
-    missing = [m for m in ("diameter", "siblings") if m not in modes]
-    if missing:
-        out.append("inherited BaseNode." + "/".join(missing) + " on BinaryNode trees not exercised in this run "
-                   "(they violate C12 on the unchanged tree: diameter raises AttributeError below a one-child node, "
-                   "siblings yields (None,) beside an empty slot; enable with VERIF_C12_BINARY_EXT=1 or a "
-                   "known_findings.json entry K4-C12 / K5-C12)")
-    return out
+    return []
